@@ -1228,6 +1228,18 @@ func (h *hmapType) checkInsertHelpers() {
 						if pa.HasArg("COND", "count>=max=true") && !pa.Has("EVICT") {
 							bnd = append(bnd, "structure is full but nothing is evicted before inserting")
 						}
+						// eviction goes on until there is room: the last thing the path learnt about
+						// `count >= max` before it inserts is that it no longer holds (one removal is not
+						// enough once the maximum was lowered on a fuller structure)
+						last := ""
+						for j := 0; j < len(pa) && (bi < 0 || j < bi); j++ {
+							if pa[j].Kind == "COND" && strings.HasPrefix(pa[j].Arg, "count>=max=") {
+								last = pa[j].Arg
+							}
+						}
+						if last == "count>=max=true" && pa.Has("EVICT") && bi >= 0 {
+							bnd = append(bnd, "after evicting, the insertion goes ahead without `count >= max` having been found false: a single removal does not bring an over-full structure back under its maximum")
+						}
 					}
 				}
 				// growth
@@ -1876,6 +1888,12 @@ func (h *hmapType) checkRehash() {
 	// coverage of the old table
 	if why := walkCoverage(cl, fi.Decl.Body); why != "" {
 		probs = append(probs, why)
+	}
+	// the chain walk reads an entry's successor before it redirects the entry's link
+	for _, b := range bodies {
+		if why := linkReadAfterWrite(info, b); why != "" {
+			probs = append(probs, why)
+		}
 	}
 	if len(probs) > 0 {
 		h.r.Viol(h.pre+".rehash", c, pos, strings.Join(probs, "; "))
@@ -2619,4 +2637,126 @@ func (h *hmapType) checkKeyDomain() {
 	} else {
 		h.r.OK(h.pre+".key-domain", c, pos, "lookups reject only keys the insertion path rejects too")
 	}
+}
+
+// linkReadAfterWrite: in every loop of body, once the chain link of an entry (a field that points to
+// the entry's own type) has been assigned, the same entry's link is not read again in that iteration
+// — neither later in the body nor in the loop's post statement. `for e := head; e != nil; e = e.next
+// { ...; e.next = newTable[i]; ... }` advances through the link it has just redirected: the rest of
+// the old chain is lost, or the walk never ends. Entries are told apart through their variables in
+// statement order (e := old makes e and old one entry until either is re-assigned).
+func linkReadAfterWrite(info *types.Info, body ast.Node) string {
+	why := ""
+	isLink := func(sel *ast.SelectorExpr) bool {
+		ft, ok := info.TypeOf(sel).(*types.Pointer)
+		if !ok {
+			return false
+		}
+		xt := info.TypeOf(sel.X)
+		if pp, ok := xt.(*types.Pointer); ok {
+			xt = pp.Elem()
+		}
+		return types.Identical(ft.Elem(), xt)
+	}
+	ast.Inspect(body, func(n ast.Node) bool {
+		loop, ok := n.(*ast.ForStmt)
+		if !ok || why != "" {
+			return true
+		}
+		next := 1
+		ent := map[types.Object]int{}
+		idOf := func(e ast.Expr) int {
+			if id, ok := ast.Unparen(e).(*ast.Ident); ok {
+				if o := info.ObjectOf(id); o != nil {
+					if ent[o] == 0 {
+						ent[o] = next
+						next++
+					}
+					return ent[o]
+				}
+			}
+			return 0
+		}
+		written := map[string]bool{} // entry id + field
+		key := func(sel *ast.SelectorExpr) string {
+			if k := idOf(sel.X); k != 0 {
+				return fmt.Sprintf("%d.%s", k, sel.Sel.Name)
+			}
+			return ""
+		}
+		reads := func(e ast.Node) {
+			ast.Inspect(e, func(m ast.Node) bool {
+				if sel, ok := m.(*ast.SelectorExpr); ok && isLink(sel) {
+					if k := key(sel); k != "" && written[k] && why == "" {
+						why = fmt.Sprintf("the chain walk reads %s after that link was redirected in the same iteration: the rest of the old chain is lost (or the walk never ends)", types.ExprString(sel))
+					}
+				}
+				return true
+			})
+		}
+		var visit func(s ast.Stmt)
+		visit = func(s ast.Stmt) {
+			switch v := s.(type) {
+			case *ast.AssignStmt:
+				for _, rh := range v.Rhs {
+					reads(rh)
+				}
+				for i, l := range v.Lhs {
+					switch lv := ast.Unparen(l).(type) {
+					case *ast.SelectorExpr:
+						if isLink(lv) {
+							if k := key(lv); k != "" {
+								written[k] = true
+							}
+						}
+					case *ast.Ident:
+						o := info.ObjectOf(lv)
+						if o == nil {
+							continue
+						}
+						// alias (e := old) or a fresh entry (old = old.next)
+						if i < len(v.Rhs) && len(v.Lhs) == len(v.Rhs) {
+							if rid, ok := ast.Unparen(v.Rhs[i]).(*ast.Ident); ok && info.ObjectOf(rid) != nil {
+								ent[o] = idOf(rid)
+								continue
+							}
+						}
+						ent[o] = next
+						next++
+					}
+				}
+			case *ast.BlockStmt:
+				for _, x := range v.List {
+					visit(x)
+				}
+			case *ast.IfStmt:
+				if v.Init != nil {
+					visit(v.Init)
+				}
+				reads(v.Cond)
+				visit(v.Body)
+				if v.Else != nil {
+					visit(v.Else)
+				}
+			case *ast.ForStmt:
+				// nested loops are judged on their own
+			case *ast.ExprStmt:
+				reads(v.X)
+			case *ast.IncDecStmt, *ast.BranchStmt, *ast.DeclStmt:
+			default:
+				if s != nil {
+					reads(s)
+				}
+			}
+		}
+		if loop.Init != nil {
+			visit(loop.Init)
+		}
+		visit(loop.Body)
+		if loop.Post != nil {
+			visit(loop.Post)
+		}
+		return true
+	})
+	return why
 }
